@@ -462,20 +462,29 @@ pub const STACK_PROBE_BYTES: usize = 64 * 1024;
 /// child side: `vharness --stack-probe <file> <bytes>`: one message per line in hex, each parsed on a thread with the
 /// given stack; the index is printed before each parse so that the parent knows which message killed the process
 pub fn stack_probe_child(file: &str, bytes: usize) {
+    let reemit = std::env::var("VHARNESS_STACK_REEMIT").ok().as_deref() == Some("1");
     use std::io::Write;
     let text = std::fs::read_to_string(file).unwrap_or_default();
     for (i, line) in text.lines().enumerate() {
         let b = match text::unhex(line.trim()) { Some(b) => b, None => continue };
         println!("{}", i);
         let _ = std::io::stdout().flush();
-        let h = std::thread::Builder::new().stack_size(bytes).spawn(move || { let _ = std::panic::catch_unwind(|| { let _ = Packet::parse(&b).map(|p| p.answers.len()); }); });
+        let h = std::thread::Builder::new().stack_size(bytes).spawn(move || { let _ = std::panic::catch_unwind(|| {
+            if let Ok(p) = Packet::parse(&b) {
+                // a forwarder's path: what was parsed is written again, by both writers, on the same small stack
+                if reemit { let _ = p.build_bytes_vec().map(|x| x.len()); let _ = p.build_bytes_vec_compressed().map(|x| x.len()); let mut small = [0u8; 64]; let _ = p.write_to(&mut &mut small[..]); }
+            }
+        }); });
         if let Ok(h) = h { let _ = h.join(); }
     }
     println!("done");
 }
 
-fn stack_probe(messages: &[Vec<u8>]) -> Vec<Case> {
-    let dir = std::env::temp_dir().join(format!("vharness-stack-{}", std::process::id()));
+fn stack_probe(messages: &[Vec<u8>]) -> Vec<Case> { stack_probe_with(messages, false) }
+
+/// `reemit`: the child also serialises every parsed message with both writers on the small stack (C11's path)
+pub fn stack_probe_with(messages: &[Vec<u8>], reemit: bool) -> Vec<Case> {
+    let dir = std::env::temp_dir().join(format!("vharness-stack-{}-{}", std::process::id(), reemit as u8));
     let _ = std::fs::create_dir_all(&dir);
     let file = dir.join("messages.hex");
     let body: String = messages.iter().map(|m| format!("{}\n", text::hex(m))).collect();
@@ -483,7 +492,7 @@ fn stack_probe(messages: &[Vec<u8>]) -> Vec<Case> {
     let mut c = Case::oracle_only().tag("stack-probe");
     if std::fs::write(&file, body).is_ok() {
         if let Ok(exe) = std::env::current_exe() {
-            match std::process::Command::new(exe).arg("--stack-probe").arg(&file).arg(STACK_PROBE_BYTES.to_string()).output() {
+            match std::process::Command::new(exe).arg("--stack-probe").arg(&file).arg(STACK_PROBE_BYTES.to_string()).env("VHARNESS_STACK_REEMIT", if reemit { "1" } else { "0" }).output() {
                 Ok(o) => {
                     let text_out = String::from_utf8_lossy(&o.stdout).to_string();
                     if !text_out.trim_end().ends_with("done") {
@@ -491,7 +500,7 @@ fn stack_probe(messages: &[Vec<u8>]) -> Vec<Case> {
                         let m = &messages[last.min(messages.len() - 1)];
                         c = Case::new(format!("parse {}", text::hex(m)), "panic".to_string()).tag("stack-probe");
                         c.proj = Proj::None;
-                        c = c.fail("parse-stack", format!("parsing this {}-byte message on a thread with a {} KiB stack kills the process ({})", m.len(), STACK_PROBE_BYTES / 1024, o.status));
+                        c = c.fail(if reemit { "reserialise-stack" } else { "parse-stack" }, format!("{} this {}-byte message on a thread with a {} KiB stack kills the process ({})", if reemit { "parsing and re-serialising" } else { "parsing" }, m.len(), STACK_PROBE_BYTES / 1024, o.status));
                     }
                 }
                 Err(e) => { eprintln!("stack probe not run: {}", e); }
